@@ -158,6 +158,15 @@ def all_cases(tier):
         out.append({"ga": list(ga), "gb": list(gb), "nc": [1, 1], "spell": spells[n % 3], "adjoint": small or tier != "quick"})
         if n % 4 == 0:
             out.append({"ga": list(ga), "gb": list(gb), "nc": [2, 2], "spell": spells[(n + 1) % 3], "adjoint": ga[0] * gb[0] <= 6})
+    # extents around the limits of narrow integer types (index arithmetic in 8 / 16 bits): one long axis, one short axis
+    m = 0
+    for L in (127, 128, 255, 256, 257) + ((65535, 65536) if tier != "quick" else ()):
+        for (k, p) in ((3, 1), (2, 2), (1, 3)):
+            if L > 1000 and (k, p) != (3, 1): continue
+            long_, short = (L, k, 1, p, 1), (2, 2, 1, 1, 1)
+            for ga, gb in ((long_, short), (short, long_)):
+                m += 1
+                out.append({"ga": list(ga), "gb": list(gb), "nc": [1, 1] if m % 3 else [2, 2], "spell": spells[m % 3], "adjoint": False})
     return out
 
 def replay(case):
@@ -172,6 +181,7 @@ def run(tier, seed):
                    "{(1,1),(2,2)} x int/tuple/list spellings: 3 im2col variants x 2 layouts x pad values {0,-1.5} bitwise equal, "
                    "extract_windows, 3 col2im variants x 2 layouts bitwise equal, place_windows; adjointness by full operator "
                    "matrices on basis inputs (%d geometries); fold(unfold(1)) == window-cover multiplicity; "
+                   "plus extents 127..257 (thorough: 65535, 65536) on one axis - index arithmetic at the limits of narrow integer types; "
                    "non-trivial = more than one pixel or kernel element"
                    % ("axes tied or one axis fixed" if tier == "quick" else "full product of both axes", sum(1 for c in cases if c["adjoint"])),
            "samples": r["samples"], "exhaustive": True, "outcomes": r["outcomes"]}
